@@ -269,6 +269,16 @@ Theorem C07_clock_bracket : forall c lo mid hi ep w,
 Proof. intros c lo mid hi ep w. exact (serve_clock_bracket c lo mid hi ep (request_of_wire ep w)). Qed.
 Print Assumptions C07_clock_bracket.
 
+(* the outermost handler the binary installs (NewAuthenticatorMux: /ping, host router, path router)
+   adds no redirect of its own: a 3xx or a login start comes from a route of the authenticator, for
+   a request whose Host header is exactly the configured one *)
+Theorem C07_outer_adds_no_redirect : forall c sh rh p now w o,
+  outer_serve c sh rh p now w = o ->
+  (exists src hw, o = ORedirect src hw) \/ (exists a, o = OIdP a) ->
+  exists ep, p = OpRoute ep /\ rh = sh /\ serve_wire c now ep w = o.
+Proof. exact outer_redirect_from_route. Qed.
+Print Assumptions C07_outer_adds_no_redirect.
+
 (* ---- 6. the monitor on wire requests accepts the model's predictions ----------------------- *)
 Theorem C07_monitor_serve_ok : forall c now ep w,
   (forall src hw, ep = EpSignOut -> serve_wire c now ep w = ORedirect src hw -> forallb (fun b => b <? 128) src = true ->
